@@ -27,6 +27,7 @@ class Dom(object):
         self.nob = 0
         self.bad = {}
         self.record = True
+        self.inf = set()        # names whose current value was derived from the overflow threshold (the infinite cost)
 
     # ---- keys
     def region(self, sub):
@@ -147,6 +148,11 @@ class Dom(object):
             d = cur if cur != ANY else d
         if key is not None:
             self.st[key] = d
+            if e.a['op'] == '=':
+                if any(y.k == 'Ref' and (y.a.get('name') == 'rinf' or y.a.get('name') in self.inf) for y in e.c[1].walk()):
+                    self.inf.add(key)
+                else:
+                    self.inf.discard(key)
         return d
 
     # ---- statements
@@ -231,6 +237,9 @@ def run(chk, cid, prog, cfgname):
         raise AnalysisBroken('mc64ad_: the `*job == 5` block was not found')
     d = Dom(chk, cid, f, cfgname)
     d.cost = None
+    d.run(f.body)
+    d.inf_ever = set(d.inf)
+    d.bad.clear(); d.nob = 0; d.st = {}; d.cost = None
     d.run(blk)
     if d.nob < 12 or d.cost is None:
         raise AnalysisBroken('mc64ad_ job 5: only %d domain obligations met / mc64wd_ call not seen; the block has changed shape' % d.nob)
@@ -259,7 +268,7 @@ def run(chk, cid, prog, cfgname):
         els = [a for a in x.c[2].walk() if a.k == 'Assign' and d.key(a.c[0]) == key]
         n += 1
         inst = 'mc64ad_:job5:zero-magnitude-gets-the-infinite-cost:%s' % key
-        if els and all(any(y.k == 'Ref' and y.a.get('name') == 'rinf' for y in a.c[1].walk()) for a in els):
+        if els and all(any(y.k == 'Ref' and (y.a.get('name') == 'rinf' or y.a.get('name') in d.inf_ever) for y in a.c[1].walk()) for a in els):
             chk.ok(cid, inst, sample='`%s` / else `%s`' % (pretty(logs[0])[:40], pretty(els[0])[:30]))
         else:
             chk.violate(cid, inst, loc(f, els[0] if els else x), 'mc64ad_',
